@@ -251,6 +251,40 @@ Lemma swallowed_no_exit {S} (w : hworld S) (e : xentry) (path : list xentry) :
   intercepts e = true -> process_exit w (e :: path) = None.
 Proof. intros H. unfold process_exit. cbn [propagate]. rewrite H. reflexivity. Qed.
 
+(* ---- the handler that runs belongs to the sampler created last ------------------------------- *)
+Lemma construct_last (regs : list reg) (s : sig) (i : nat) :
+  negb (length (regs_for regs s) =? 0)%nat = true ->
+  forallb (fun r => negb (r_cond r)) (regs_for regs s) = true ->
+  forall t, construct regs t i s = Some i.
+Proof.
+  unfold construct. induction regs as [|r regs IH] using rev_ind; intros Hne Hun t.
+  - cbn in Hne. discriminate.
+  - rewrite fold_left_app. cbn [fold_left]. unfold install at 1.
+    unfold regs_for in *. rewrite filter_app in Hne, Hun. cbn [filter] in Hne, Hun.
+    destruct (sig_eqb s (r_sig r)) eqn:E.
+    + assert (E' : sig_eqb (r_sig r) s = true) by (destruct s, (r_sig r); cbn in *; congruence).
+      rewrite E' in Hun. rewrite forallb_app in Hun. apply andb_true_iff in Hun. destruct Hun as (_ & Hr).
+      cbn in Hr. destruct (r_cond r); [discriminate|reflexivity].
+    + assert (E' : sig_eqb (r_sig r) s = false) by (destruct s, (r_sig r); cbn in *; congruence).
+      rewrite E' in Hne, Hun. rewrite app_nil_r in Hne, Hun. apply IH; assumption.
+Qed.
+
+Theorem regs_sound (regs : list reg) :
+  regs_ok regs = true -> forall n s, after_samplers regs (S n) s = Some n.
+Proof.
+  unfold regs_ok. intros H n s.
+  assert (Hs : negb (length (regs_for regs s) =? 0)%nat = true
+               /\ forallb (fun r => negb (r_cond r)) (regs_for regs s) = true).
+  { rewrite forallb_forall in H. apply andb_true_iff. apply H. destruct s; cbn; tauto. }
+  unfold after_samplers. rewrite seq_S, fold_left_app. cbn [fold_left plus].
+  apply construct_last; tauto.
+Qed.
+
+(* a registration that only fires on a default handler keeps the FIRST sampler's handler *)
+Lemma stale_handler_refuted :
+  after_samplers [mkreg STERM true; mkreg SINT true; mkreg SALRM true] 2 STERM = Some 0.
+Proof. reflexivity. Qed.
+
 (* ---- the importance sampler refuses mid-iteration checkpoints -------------------------------- *)
 Theorem ins_intact {FS} (write touch : FS -> FS) : forall effs fs,
   ins_ckpt_ok effs = true -> irun write touch effs false fs = fs.
